@@ -1512,3 +1512,67 @@ Section Reals.
     fold (total_degree P). field. lra.
   Qed.
 End Reals.
+(* ------------------------------------------------------------------------------------------ *)
+(* 9. examples over R (non-vacuity): ties, a zero, a disabled and an unloaded rule             *)
+(* ------------------------------------------------------------------------------------------ *)
+Definition rule_ex {T} (loaded enabled : bool) (v stale : T) : crule T :=
+  {| cr_static := {| rs_loaded := loaded; rs_enabled := enabled; rs_value := v; rs_size := 1 |};
+     cr_degree := stale; cr_triggered := true |}.
+Section ExamplesR.
+  Local Open Scope R_scope.
+  (* positions:   0: 1/2    1: 0    2: 1 (disabled)    3: 1/2 (tie with 0)    4: 1 (unloaded)    5: 1/4 *)
+  Definition block_R : list (crule R) :=
+    [rule_ex true true (1/2) 7; rule_ex true true 0 7; rule_ex true false 1 7;
+     rule_ex true true (1/2) 7; rule_ex false true 1 7; rule_ex true true (1/4) 7].
+
+  Lemma Rltb_true a b : a < b -> Rltb a b = true.
+  Proof. intros; destruct (Rltb_spec a b); auto; lra. Qed.
+  Lemma Rltb_false a b : ~ a < b -> Rltb a b = false.
+  Proof. intros; destruct (Rltb_spec a b); auto; lra. Qed.
+  Lemma Rleb_true a b : a <= b -> Rleb a b = true.
+  Proof. intros; destruct (Rleb_spec a b); auto; lra. Qed.
+  Lemma Rleb_false a b : ~ a <= b -> Rleb a b = false.
+  Proof. intros; destruct (Rleb_spec a b); auto; lra. Qed.
+  Lemma Reqb_true a b : a = b -> Reqb a b = true.
+  Proof. intros; destruct (Reqb_spec a b); auto; lra. Qed.
+  Lemma Reqb_false a b : a <> b -> Reqb a b = false.
+  Proof. intros; destruct (Reqb_spec a b); auto; lra. Qed.
+  Ltac decideR := repeat (cbn [filter andb orb negb firstn insert_by sort_by fst snd map app rev Nat.ltb Nat.leb];
+    match goal with
+    | |- context [Rltb ?a ?b] => first [rewrite (@Rltb_true a b) by lra | rewrite (@Rltb_false a b) by lra]
+    | |- context [Rleb ?a ?b] => first [rewrite (@Rleb_true a b) by lra | rewrite (@Rleb_false a b) by lra]
+    | |- context [Reqb ?a ?b] => first [rewrite (@Reqb_true a b) by lra | rewrite (@Reqb_false a b) by lra]
+    end).
+  Ltac selR := unfold selection, loaded_degrees, block_R, rule_ex; cbn [loaded_from rs_loaded rs_value cr_static select];
+    unfold take, reaches, positive, before_desc, before_asc; cbn [Z.to_nat Pos.to_nat Pos.iter_op Nat.add];
+    unR; decideR; cbn [filter andb orb negb firstn insert_by sort_by fst snd map app rev Nat.ltb Nat.leb].
+
+  Lemma block_R_scalar : scalar_block block_R.
+  Proof. intros r H _. repeat (destruct H as [<-|H]; [cbn; auto|]). destruct H. Qed.
+
+  Lemma sel_R_first : selection (AFirst 2 (1/2)) block_R = [(0%nat, 1/2); (2%nat, 1)].
+  Proof. selR. reflexivity. Qed.
+  Lemma sel_R_last : selection (ALast 2 (1/2)) block_R = [(3%nat, 1/2); (2%nat, 1)].
+  Proof. selR. reflexivity. Qed.
+  Lemma sel_R_highest : selection (AHighest 3) block_R = [(2%nat, 1); (0%nat, 1/2); (3%nat, 1/2)].
+  Proof. selR. reflexivity. Qed.
+  Lemma sel_R_lowest : selection (ALowest 2) block_R = [(5%nat, 1/4); (0%nat, 1/2)].
+  Proof. selR. reflexivity. Qed.
+
+  Lemma example_R_first :
+    selection (AFirst 2 (1/2)) block_R = [(0%nat, 1/2); (2%nat, 1)] /\
+    selection (ALast 2 (1/2)) block_R = [(3%nat, 1/2); (2%nat, 1)] /\
+    trigger_calls (run (AFirst 2 (1/2)) block_R) = [(0%nat, 1/2); (2%nat, 1)].
+  Proof.
+    split; [apply sel_R_first | split; [apply sel_R_last|]].
+    destruct (First_good 2 (1/2) block_R_scalar) as (s' & GR). rewrite (run_selects GR). apply sel_R_first.
+  Qed.
+  Lemma example_R_highest :
+    selection (AHighest 3) block_R = [(2%nat, 1); (0%nat, 1/2); (3%nat, 1/2)] /\
+    selection (ALowest 2) block_R = [(5%nat, 1/4); (0%nat, 1/2)] /\
+    trigger_calls (run (AHighest 3) block_R) = [(2%nat, 1); (0%nat, 1/2); (3%nat, 1/2)].
+  Proof.
+    split; [apply sel_R_highest | split; [apply sel_R_lowest|]].
+    destruct (Highest_good NumR_PosOrder 3 block_R_scalar) as (s' & GR). rewrite (run_selects GR). apply sel_R_highest.
+  Qed.
+End ExamplesR.
